@@ -413,3 +413,50 @@ func c18Tree(rec *mon.Recorder, rng *rand.Rand, seed int64, root *types.Header, 
 		}
 	}
 }
+
+// TestC18Race: real ethash verification (goroutines, caches) and synthetic trees on parallel clients under the race detector.
+func TestC18Race(t *testing.T) {
+	if os.Getenv("VERIF_RACE_PASS") == "" {
+		t.Skip("only run by run.sh in the race pass")
+	}
+	rec := mon.New("C18race", "exploration", "race pass")
+	hs := recordedEth(rec)
+	if hs == nil {
+		t.Fatal("no recorded headers")
+	}
+	ethtypes.VerifSkipSeal = false
+	var wg sync.WaitGroup
+	for i := 0; i < 3; i++ {
+		wg.Add(1)
+		go func(i int) {
+			defer wg.Done()
+			rng := rand.New(rand.NewSource(int64(i)))
+			e, err := newEthClient(int64(900+i), rng, hs[0])
+			if err != nil {
+				return
+			}
+			h := cloneHdr(hs[1])
+			if i == 2 {
+				h.Nonce[7] ^= 1
+			}
+			e.offer(rec, "race/real-seal", h, i != 2, false, e.now)
+		}(i)
+	}
+	wg.Wait()
+	ethtypes.VerifSkipSeal = true
+	for j := 0; j < 8; j++ {
+		wg.Add(1)
+		go func(j int) {
+			defer wg.Done()
+			rng := rand.New(rand.NewSource(int64(7000 + j)))
+			c18Tree(rec, rng, int64(7000+j), hs[0], 25)
+		}(j)
+	}
+	wg.Wait()
+	ethtypes.VerifSkipSeal = false
+	fmt.Printf("RACE-PASS eth accepted=%d fork_switches=%d unlisted_violations=%d\n", rec.Get("accepted"), rec.Get("fork-switches"), rec.Unlisted())
+	if rec.Unlisted() > 0 {
+		fmt.Println("VIOLATION property=C18 replay=race-pass:eth")
+		t.Fail()
+	}
+}
